@@ -18,7 +18,7 @@ import time
 
 from abnf.parser import ParseCache
 
-DRIVER = os.path.join(os.path.dirname(os.path.abspath(__file__)), "..", "ocaml", "driver")
+DRIVER = os.path.join(os.path.dirname(os.path.abspath(__file__)), "..", "ocaml", "rundriver")
 
 
 def key(k):
